@@ -141,6 +141,7 @@ type Prob struct {
 	Cons  []Con  `json:"cons"`
 	Text  string `json:"text,omitempty"` // dimacs / opb text when Front is textual
 	Class string `json:"class"`
+	CP    bool   `json:"cp,omitempty"` // C05: count / enumerate with the cutting-planes strategy on
 }
 
 func (p *Prob) norm() {
